@@ -27,6 +27,7 @@ import json
 import warnings
 import os
 import random
+import datetime
 import subprocess
 import sys
 import threading
@@ -96,6 +97,12 @@ def make_items(seed, shard, nshards, tier):
                 # the one class with two separate runs of repeated children: members given OUT of run order (writing sorts a copy, not the instance)
                 for q in range(6):
                     items.append({"id": f"unordered/{name}/{p}/{q}", "kind": "from_etree", "cls": name, "seedstr": f"{seedstr}/u{q}", "profile": "max", "unordered": True})
+    # whole responses / requests with statements of every kind (the root class has conveniences that look into them: writing must not)
+    for j in range(2 if tier == "quick" else 10):
+        side = "rs" if j % 2 == 0 else "rq"
+        force = [f"bankmsgs{side}v1", f"creditcardmsgs{side}v1", f"invstmtmsgs{side}v1"]
+        items.append({"id": f"ofx/{shard}/{j}", "kind": "roundtrip" if j % 4 < 2 else "from_etree", "cls": "OFX", "seedstr": f"C17o/{seed}/{shard}/{j}", "form": (shard + j) % 6,
+                      "profile": "max" if j < 2 else "random", "force": force})
     for j in range(8 if tier == "quick" else 40):
         items.append({"id": f"ty/{shard}/{j}", "kind": "types", "seedstr": f"C17t/{seed}/{shard}/{j}"})
     # date-times at the two ends of the calendar (normalising them to UTC overflows), each followed by an ordinary conversion under a watchdog
@@ -153,6 +160,21 @@ class _NullCtx:
         pass
 
 
+def deep_dict(x):
+    """Everything an instance carries, declared or not: per nested aggregate the sorted keys of its __dict__, and the value of
+    every key its class does not declare (a snapshot of the declared ones is taken separately).  Nothing here goes through the
+    instance's own attribute lookup, __repr__ or properties - looking must not be what changes it."""
+    from ofxtools.models.base import Aggregate
+
+    if not isinstance(x, Aggregate):
+        return None
+    d = ref_decl.decl(type(x))
+    own = x.__dict__
+    extra = tuple((k, repr(own[k]) if not isinstance(own[k], Aggregate) else ("AGG", id(own[k]))) for k in sorted(own) if k not in d)
+    return (type(x).__name__, tuple(sorted(own)), extra, tuple(deep_dict(own[k]) for k in sorted(own) if isinstance(own[k], Aggregate)),
+            tuple(deep_dict(m) for m in list.__iter__(x)))
+
+
 class Imm:
     """Input-immutability monitor (thread-safe counters)."""
 
@@ -185,7 +207,11 @@ def run_item(item, imm):
             off = rng.randint(-12, 14)
             text = f"{y:04d}{mo:02d}{d:02d}{h:02d}3015.250[{off:+d}:XYZ]"
             v = dt.convert(text)
-            out.append((text, v.isoformat(), dt.unconvert(v), tm.unconvert(tm.convert(text[8:])), str(dec.convert(f"{rng.randint(0, 10**6)},5"))))
+            # ... and the same moment handed over as a Python value with its own offset (nothing here may look at the HOST's zone:
+            # the pristine child runs under another one)
+            z = datetime.timezone(datetime.timedelta(hours=off, minutes=rng.choice([0, 0, 30, 45]) if -12 < off < 14 else 0))
+            pv = (tm.convert(datetime.time(h, 30, 15, 250000, tzinfo=z)).isoformat(), dt.convert(datetime.datetime(y, mo, d, h, 30, 15, tzinfo=z)).isoformat())
+            out.append((text, v.isoformat(), dt.unconvert(v), tm.unconvert(tm.convert(text[8:])), str(dec.convert(f"{rng.randint(0, 10**6)},5")), pv))
         return fp(out)
     if kind == "edgedate":
         from ofxtools import Types as T
@@ -240,7 +266,7 @@ def run_item(item, imm):
 
     def make():
         return instances.build(cls, random.Random(item["seedstr"]), item.get("profile", "random"),
-                               opts=instances.Opts(maxdepth=5, value_fn=nag, run_order=not item.get("unordered")))
+                               opts=instances.Opts(maxdepth=5, value_fn=nag, run_order=not item.get("unordered"), force=item.get("force", ())))
 
     if kind == "nagread":
         # a document containing over-long warn-only strings, rendered by the HARNESS (no library serializer involved): reading it
@@ -257,12 +283,12 @@ def run_item(item, imm):
         t.parse(io.BytesIO(data))
         return fp(modelwalk.snap(t.convert(), exact=True))
     inst = make()
-    keys0 = sorted(inst.__dict__)
+    keys0 = deep_dict(inst)
     if kind == "from_etree":
         before_model = modelwalk.snap(inst, exact=True)
         elem = inst.to_etree()
         imm.check("model-mutated-by-to_etree", before_model, modelwalk.snap(inst, exact=True), item)
-        imm.check("instance-dict-changed-by-to_etree", keys0, sorted(inst.__dict__), item)
+        imm.check("instance-dict-changed-by-to_etree", keys0, deep_dict(inst), item)
         es = etree_snap(elem)
         model = Aggregate.from_etree(elem)
         imm.check("tree-mutated-by-from_etree", es, etree_snap(elem), item)
@@ -285,7 +311,7 @@ def run_item(item, imm):
     before_model = modelwalk.snap(inst, exact=True)
     data = OFXClient("http://localhost", version=ver, prettyprint=pretty, close_elements=close).serialize(inst)
     imm.check("model-mutated-by-serialize", before_model, modelwalk.snap(inst, exact=True), item)
-    imm.check("instance-dict-changed-by-serialize", keys0, sorted(inst.__dict__), item)
+    imm.check("instance-dict-changed-by-serialize", keys0, deep_dict(inst), item)
     if kind == "roundtrip":
         # writing the SAME instance again in the complementary formatting must give what a fresh equal instance gives
         ver2 = ver if close else (ver if ver < 200 else 102)
@@ -487,8 +513,11 @@ def _run_shard(ctx):
     # ---- (ii-a) pristine baseline in a child interpreter
     out = os.path.join(ctx.scratch, "baseline.json")
     cmd = [sys.executable, "-m", "vf.checks.c17", "baseline", str(ctx.seed), str(ctx.shard), str(ctx.nshards), ctx.tier, out]
+    # "depends only on what it is given": the pristine child works in ANOTHER host time zone than this process
+    env = dict(os.environ, TZ="XST8" if os.environ.get("TZ") != "XST8" else "EST5EDT,M3.2.0,M11.1.0")
+    ctx.add("baseline_host_time_zone", env["TZ"])
     try:
-        subprocess.run(cmd, timeout=max(60, ctx.time_left() * 0.4), check=True, stdout=subprocess.PIPE, stderr=subprocess.PIPE)
+        subprocess.run(cmd, timeout=max(60, ctx.time_left() * 0.4), check=True, stdout=subprocess.PIPE, stderr=subprocess.PIPE, env=env)
         base_doc = json.load(open(out))
     except Exception as e:
         ctx.inconclusive_because(f"baseline child failed: {e!r} {getattr(e, 'stderr', b'')[-300:]!r}")
